@@ -45,6 +45,7 @@ struct Particle {
     int term = 0;  // ELEM: 0..2 = a,b,c ; WILD: ns*3+pc
     Occ occ{1, 1};
     std::vector<Particle> kids;
+    int id = -1;  // pre-order node number (number_nodes), used by the denotational matcher's memo table
     static Particle elem(int e, Occ o) { Particle p; p.kind = ELEM; p.term = e; p.occ = o; return p; }
     static Particle wild(int ns, int pc, Occ o) { Particle p; p.kind = WILD; p.term = ns * 3 + pc; p.occ = o; return p; }
     static Particle group(Kind k, Occ o, std::vector<Particle> ks) { Particle p; p.kind = k; p.occ = o; p.kids = std::move(ks); return p; }
@@ -239,7 +240,17 @@ inline void deriv(const R& e, int s, const std::vector<LeafInfo>& L, std::vector
 // ---------------------------------------------------------------------------------- independent denotational matcher
 // ends(p, w, i) = bit set of positions j such that w[i..j) is accepted by particle p (with its occurrence range)
 typedef uint32_t PosSet;  // words are at most 24 symbols long
-inline PosSet ends(const Particle& p, const std::vector<int>& w, int i);
+static const int MAXWORD = 24;
+struct DenotMemo {
+    std::vector<PosSet> v;      // [node id * (MAXWORD+1) + i], UINT32_MAX = not computed (bit 31 is never a position)
+    void reset(int nodes) { v.assign((size_t)nodes * (MAXWORD + 1), 0xFFFFFFFFu); }
+};
+inline int number_nodes(Particle& p, int next = 0) {
+    p.id = next++;
+    for (auto& k : p.kids) next = number_nodes(k, next);
+    return next;
+}
+inline PosSet ends(const Particle& p, const std::vector<int>& w, int i, DenotMemo& M);
 inline PosSet ends_all(const Particle& p, const std::vector<int>& w, int i, unsigned used) {
     // members are element particles with occurrence (0|1, 1)
     PosSet r = 0;
@@ -252,28 +263,33 @@ inline PosSet ends_all(const Particle& p, const std::vector<int>& w, int i, unsi
             if (!(used & (1u << m)) && term_matches(p.kids[m].kind, p.kids[m].term, w[i])) r |= ends_all(p, w, i + 1, used | (1u << m));
     return r;
 }
-inline PosSet ends_once(const Particle& p, const std::vector<int>& w, int i) {
+inline PosSet ends_once(const Particle& p, const std::vector<int>& w, int i, DenotMemo& M) {
     switch (p.kind) {
     case ELEM: case WILD: return (i < (int)w.size() && term_matches(p.kind, p.term, w[i])) ? (1u << (i + 1)) : 0;
     case SEQ: {
         PosSet cur = 1u << i;
         for (auto& k : p.kids) {
             PosSet nx = 0;
-            for (int q = 0; q <= (int)w.size(); q++) if (cur & (1u << q)) nx |= ends(k, w, q);
+            for (int q = 0; q <= (int)w.size(); q++) if (cur & (1u << q)) nx |= ends(k, w, q, M);
             cur = nx;
         }
         return cur;
     }
     case CHOICE: {
         PosSet r = 0;
-        for (auto& k : p.kids) r |= ends(k, w, i);
+        for (auto& k : p.kids) r |= ends(k, w, i, M);
         return r;
     }
     case ALL: return ends_all(p, w, i, 0);
     }
     return 0;
 }
-inline PosSet ends(const Particle& p, const std::vector<int>& w, int i) {
+// S_0 = {i}; S_(k+1) = union of ends_once over S_k; result = union of S_k for min <= k <= max.  Once S_(k+1) = S_k the sequence is
+// constant; when the body consumes at least one symbol S_k is empty for k > |w|; a nullable body makes S_k monotone, so it is
+// constant after at most |w|+1 steps: iterating to min+|w|+1 is enough for an unbounded max.
+inline PosSet ends(const Particle& p, const std::vector<int>& w, int i, DenotMemo& M) {
+    PosSet& slot = M.v[(size_t)p.id * (MAXWORD + 1) + i];
+    if (slot != 0xFFFFFFFFu) return slot;
     int n = (int)w.size();
     int cap = p.occ.min + n + 1;
     if (p.occ.max != UNB && p.occ.max < cap) cap = p.occ.max;
@@ -281,14 +297,20 @@ inline PosSet ends(const Particle& p, const std::vector<int>& w, int i) {
     if (p.occ.min == 0) res |= cur;
     for (int k = 1; k <= cap; k++) {
         PosSet nx = 0;
-        for (int q = 0; q <= n; q++) if (cur & (1u << q)) nx |= ends_once(p, w, q);
+        for (int q = 0; q <= n; q++) if (cur & (1u << q)) nx |= ends_once(p, w, q, M);
+        if (nx == cur) { if (cap >= p.occ.min) res |= cur; break; }
         cur = nx;
         if (k >= p.occ.min) res |= cur;
         if (!cur) break;
     }
+    // the slot reference may have been invalidated only if v was resized, which never happens during evaluation
+    M.v[(size_t)p.id * (MAXWORD + 1) + i] = res;
     return res;
 }
-inline bool accepts_denot(const Particle& top, const std::vector<int>& w) { return (ends(top, w, 0) >> w.size()) & 1u; }
+inline bool accepts_denot(const Particle& top, const std::vector<int>& w, DenotMemo& M, int nodes) {
+    M.reset(nodes);
+    return (ends(top, w, 0, M) >> w.size()) & 1u;
+}
 
 // ---------------------------------------------------------------------------------- Unique Particle Attribution
 enum Upa { UPA_OK = 0, UPA_SAME_PARTICLE = 1, UPA_VIOLATION = 2 };
